@@ -154,6 +154,57 @@ def simulated_write(fmt, records, wp, simfile, append=False):
 # =============================================================================================
 # "written by another program": legal re-encodings of the reference image that chython's own writers never produce
 
+_CHG_CODE = {'  1': 3, '  2': 2, '  3': 1, '  5': -1, '  6': -2, '  7': -3}
+
+
+def _v2000_props(rec, per_line):
+    """Rewrite every V2000 molblock of a record the way most other programs write it: charges as `M  CHG` lines (atom block
+    column zeroed) and the `M  CHG` / `M  ISO` / `M  RAD` entries grouped up to 8 per line."""
+    lines = rec.split('\n')
+    out, i = [], 0
+    while i < len(lines):
+        ln = lines[i]
+        if ln.endswith('V2000') and len(ln) >= 39:
+            try:
+                na, nb = int(ln[0:3]), int(ln[3:6])
+            except ValueError:
+                out.append(ln)
+                i += 1
+                continue
+            out.append(ln)
+            chg = {}
+            for k in range(na):
+                a = lines[i + 1 + k]
+                code = a[36:39]
+                if code in _CHG_CODE:
+                    chg[k + 1] = _CHG_CODE[code]
+                    a = a[:36] + '  0' + a[39:]
+                out.append(a)
+            out.extend(lines[i + 1 + na:i + 1 + na + nb])
+            j = i + 1 + na + nb
+            props = {'CHG': dict(chg), 'ISO': {}, 'RAD': {}}
+            rest = []
+            while j < len(lines) and not lines[j].startswith('M  END'):
+                pl = lines[j]
+                if pl.startswith(('M  CHG', 'M  ISO', 'M  RAD')):
+                    for e in range(int(pl[6:9])):
+                        props[pl[3:6]][int(pl[10 + 8 * e:13 + 8 * e])] = int(pl[14 + 8 * e:17 + 8 * e])
+                else:
+                    rest.append(pl)
+                j += 1
+            out.extend(rest)
+            for key in ('CHG', 'ISO', 'RAD'):
+                items = sorted(props[key].items())
+                for c in range(0, len(items), per_line):
+                    part = items[c:c + per_line]
+                    out.append(f'M  {key}{len(part):3d}' + ''.join(f' {n:3d} {v:3d}' for n, v in part))
+            i = j
+            continue
+        out.append(ln)
+        i += 1
+    return '\n'.join(out)
+
+
 def apply_foreign(fmt, text, extents, spec):
     kind = spec.get('kind')
     pieces, new_ext, pos, last = [], [], 0, 0
@@ -178,6 +229,8 @@ def apply_foreign(fmt, text, extents, spec):
                         line = 'M  V30 ' + line[k + 1:]
                 out.append(line)
             rec = '\n'.join(out)
+        if kind == 'v2000props' and fmt in ('sdf', 'rdf'):
+            rec = _v2000_props(rec, spec.get('per_line', 8))
         pieces.append(rec)
         new_ext.append((pos, pos + len(rec)))
         pos += len(rec)
@@ -1062,12 +1115,13 @@ def generate(seed):
     trace['write'] = wp
     mode = cfg['mode']
     if mode in ('clean', 'indexed') and s.random() < 0.3:
-        k = s.choice(['v3000wrap', 'v3000wrap', 'no_final_delimiter', 'crlf', 'empty_record', 'empty_record'])
+        k = s.choice(['v3000wrap', 'v3000wrap', 'no_final_delimiter', 'crlf', 'empty_record', 'empty_record', 'v2000props', 'v2000props'])
         if (k == 'v3000wrap' and fmt in ('esdf', 'erdf')) or (k == 'empty_record' and fmt != 'mrv') or \
+                (k == 'v2000props' and fmt in ('sdf', 'rdf')) or \
                 (k == 'no_final_delimiter' and fmt in ('sdf', 'esdf') and mode == 'clean') or \
                 (k == 'crlf' and fmt != 'mrv'):
             trace['foreign'] = {'kind': k, 'width': s.choice([20, 30, 40, 60, 78]), 'blank_first': s.random() < 0.5,
-                                'no_newline': s.random() < 0.5, 'after': s.randrange(8)}
+                                'no_newline': s.random() < 0.5, 'after': s.randrange(8), 'per_line': s.choice([1, 2, 3, 8, 8])}
     if mode == 'clean' and fmt != 'mrv' and s.random() < 0.3 and not trace.get('foreign'):
         trace['append'] = [gen_record_spec(w, cfg, FORMATS[fmt]['rxn']) for _ in range(s.choice([1, 2]))]
     reads = []
